@@ -77,16 +77,18 @@ def run(ctx):
                          label="mc recovery policy=%(policy)s W=%(w)d Min=%(min)d cool=%(cool)d" % p))
     # measured: hard/108: 2.2e4 distinct, 5.6e5 generated; gradual/104 (down-after 4, level 3): 3.8e4 / 9.3e5;
     # gradual/105 (level 4): 3.8e5 / 9.3e6; hard/112: 1.6e5 / 6.8e6
-    hmcs = [H.hc_params("hard", "C27", maxtime=108), H.hc_params("gradual", "C27", maxtime=104, downafter=4, maxlevel=3)]
+    # quick: hard W=2 cool=3 down-after 4 /106: 1.2e4 / 2.9e5; gradual W=1 Min=1 down-after 4 /104 (level 3): 1.3e4 / 3.2e5
+    hmcs = [H.hc_params("hard", "C27", maxtime=106, downafter=4, cool=3),
+            H.hc_params("gradual", "C27", w=1, min=1, maxtime=104, downafter=4, maxlevel=3)]
     if thorough:
-        hmcs = [H.hc_params("hard", "C27", maxtime=112), H.hc_params("gradual", "C27", maxtime=105, downafter=4),
+        hmcs = [H.hc_params("hard", "C27", maxtime=110), H.hc_params("gradual", "C27", maxtime=104, downafter=4),
                 H.hc_params("hard", "C27", maxtime=110, downafter=4, sbm=0),
                 H.hc_params("gradual", "C27", maxtime=104, downafter=4, maxlevel=3, hasmaster="FALSE")]
     for p in hmcs:
-        jobs.append(dict(module="HealthCheck", cfg_text=H.HC_MC % p, coverage=True, workers=4 if thorough else 2,
+        jobs.append(dict(module="HealthCheck", cfg_text=H.HC_MC % p, coverage=True, workers=4,
                          label="mc rounds+breaker policy=%(policy)s downafter=%(downafter)d hasmaster=%(hasmaster)s" % p))
     # the corner in which the code leaves C27: TLC exhibits it as a counterexample when the exception is removed
-    pc = H.hc_params("hard", "C27", maxtime=108, extra="CONSTANT KnownCorner <- NoCorner")
+    pc = H.hc_params("hard", "C27", maxtime=106, downafter=4, cool=3, extra="CONSTANT KnownCorner <- NoCorner")
     jobs.append(dict(module="HealthCheck", cfg_text=H.HC_MC % pc, allow_violation=True, label="mc rounds+breaker without the known-corner exception"))
     n_mc = len(jobs)
 
